@@ -380,6 +380,7 @@ def replay(ck, data):
     if bt is None:
         return 2
     tab, S = bt
+    supergen.gen_schema(ck, S)
     T = bindings.Tables(tab)
     mir = supergen.Mirror(tab)
     inp = data.get("input") or {}
